@@ -26,7 +26,7 @@ func (w *world) keyNames() []string { return w.store.Names(backend.KeyFile) }
 func (w *world) tryOpen(pw, hint string) (error, bool) {
 	pr := w.newProc("open")
 	pr.gopts.Password = pw
-	pr.gopts.KeyHint = hint
+	pr.gopts.KeyHint = hint // explicit: "" means no hint even in many-key repositories
 	same := false
 	err := pr.run(func(ctx context.Context, g global.Options, term ui.Terminal) error {
 		repo, err := openRepo(ctx, g, term)
@@ -60,6 +60,10 @@ func (w *world) judgeKeys(km keyModel, universe []string, where string) {
 	w.free(func() {
 		for _, pw := range universe {
 			err, same := w.tryOpen(pw, "")
+			if valid[pw] && err != nil && len(present) > 20 {
+				// beyond 20 keys only a hinted key is guaranteed to be found
+				continue
+			}
 			if valid[pw] && err != nil {
 				r.Fail("opens", "valid-password-rejected", "%s: password %q belongs to a key file in the repository but does not open it: %v", where, pw, err)
 				return
@@ -113,6 +117,44 @@ func TestVerifC29(t *testing.T) {
 			universe := []string{w.pw, "wrong-password"}
 			var hist []string
 			npw := 0
+			// sometimes a repository with more than 20 keys: then every key must still open when named with --key-hint
+			if tp.Choose(6) == 0 {
+				nMany := 20 + tp.Choose(6)
+				// with more than 20 keys the user has to name the key
+				w.keyHint = func() string {
+					for _, k := range w.keyNames() {
+						if km[k] == w.pw {
+							return k
+						}
+					}
+					return ""
+				}
+				var merr error
+				w.free(func() {
+					for i := 0; i < nMany && merr == nil; i++ {
+						before := map[string]bool{}
+						for _, k := range w.keyNames() {
+							before[k] = true
+						}
+						pw := fmt.Sprintf("many-%d", i)
+						merr = w.cmdKeyAdd(w.newProc("key-add-many"), pw)
+						for _, k := range w.keyNames() {
+							if !before[k] {
+								km[k] = pw
+							}
+						}
+						if i%5 == 0 {
+							universe = append(universe, pw)
+						}
+					}
+				})
+				if merr != nil {
+					r.Fail("op-result", "failed-without-fault", "adding key number >20 failed without a fault: %v", merr)
+					return
+				}
+				hist = append(hist, fmt.Sprintf("%d extra keys", nMany))
+				r.Count("runs_with_more_than_20_keys", 1)
+			}
 			type opdesc struct {
 				kind string
 				arg  string
